@@ -846,4 +846,31 @@ func main() {
 	writeIfChanged(filepath.Join(*out, "CastTable.lean"), b.String())
 	nunk := strings.Count(b.String(), ".unknown")
 	fmt.Printf("Gen/CastTable.lean: %d casters, %d unknown\n", len(x.casters()), nunk)
+
+	jp, err := loadPkg(filepath.Join(*repo, "pkg/jsonline"), "github.com/cgi-fr/jsonline/pkg/jsonline")
+	if err != nil {
+		fmt.Println("cannot load pkg/jsonline:", err)
+		os.Exit(1)
+	}
+	var sb strings.Builder
+	sb.WriteString("-- GENERATED by extract/ from /repo/pkg/jsonline and /repo/pkg/cast on every run. Do not edit.\n\nnamespace Jl.Gen\n\n")
+	sb.WriteString("/-- Panic-capable sites of pkg/jsonline: (function, kind, count). -/\ndef sites : List (String × String × Nat) := " + renderSites(panicSites(jp)) + "\n\n")
+	sb.WriteString("/-- Panic-capable sites of pkg/cast. -/\ndef castSites : List (String × String × Nat) := " + renderSites(panicSites(cp)) + "\n\n")
+	jw, jg := sharedWrites(jp)
+	cwr, cg := sharedWrites(cp)
+	sb.WriteString("/-- Assignments through a receiver, a parameter or a package-level variable in pkg/jsonline. -/\ndef jsonlineWrites : List String := " + lstrList(jw) + "\n\n")
+	sb.WriteString("def jsonlineGlobals : List String := " + lstrList(jg) + "\n\n")
+	sb.WriteString("def castWrites : List String := " + lstrList(cwr) + "\n\n")
+	sb.WriteString("def castGlobals : List String := " + lstrList(cg) + "\n\n")
+	sb.WriteString("/-- Every call that receives the template's prototype row `t.empty`, per template method. -/\ndef protoUses : List String := " + lstrList(rootedCalls(jp, "template.*", "t.empty")) + "\n\n")
+	sb.WriteString("/-- What CloneRow / CloneValue do with their argument. -/\ndef cloneUses : List String := " + lstrList(append(append(rootedCalls(jp, "CloneRow", "r"), rootedCalls(jp, "CloneValue", "v")...), rootedCalls(jp, "row.IterValues", "r.l")...)) + "\n\n")
+	// constants of importer.go / exporter.go
+	for _, c := range []string{"initialBufferSize", "maximumBufferSize", "lineSeparator"} {
+		if obj, ok := jp.pkg.Scope().Lookup(c).(*types.Const); ok {
+			sb.WriteString(fmt.Sprintf("def %s : Nat := %s\n", c, obj.Val().ExactString()))
+		}
+	}
+	sb.WriteString("\nend Jl.Gen\n")
+	writeIfChanged(filepath.Join(*out, "Sites.lean"), sb.String())
+	fmt.Printf("Gen/Sites.lean: %d jsonline sites, %d writes\n", len(panicSites(jp)), len(jw))
 }
